@@ -1,4 +1,4 @@
-// @unit id=v_streams props=C19,C17,C07,C15,C09,C02,C03,C04,C08 tier=quick
+// @unit id=v_streams props=C19,C17,C07,C15,C09,C02,C03,C04,C05,C08 tier=quick
 // Verus contracts on the REAL bodies of src/proto/streams/streams.rs `drop_stream_ref` and `maybe_cancel` (extracted on
 // every run): what happens when the application drops a handle on a stream (C19 "once the application has dropped its
 // handles the endpoint retains nothing", C17 implicit reset of a stream nobody listens to any more).
@@ -93,6 +93,12 @@ impl SStore {
     #[verifier::external_body]
     pub fn resolve_key(&mut self, key: Key) -> (s: Stream)
         ensures s == old(self).spec_get(key) && s.key == key && final(self).held() == old(self).held() + 1,
+    { unimplemented!() }
+
+    /// `me.store.resolve(key).is_pending_open` — reading one flag through a temporary Ptr
+    #[verifier::external_body]
+    pub fn is_pending_open_at(&self, key: Key) -> (r: bool)
+        ensures r == self.spec_get(key).is_pending_open,
     { unimplemented!() }
 
     /// Store::resolve(child_key) for the promised stream created a few lines earlier in the same critical section: no handle
@@ -191,8 +197,21 @@ impl Stream {
     { unimplemented!() }
 }
 
-/// http::Request<()> handed to push_request (opaque)
-pub struct Req { pub tag: u8 }
+/// http::Request<()> handed to push_request / send_request (opaque; only "is the method HEAD" is observed)
+pub struct Req { pub tag: u8, pub head: bool }
+impl Req {
+    pub fn is_head(&self) -> (r: bool) ensures r == self.head { self.head }
+}
+/// frame::Headers produced by client::Peer::convert_send_message (opaque here)
+pub struct HFrame { pub tag: u8 }
+
+/// client::Peer::convert_send_message (request validation: C13 units)
+#[verifier::external_body]
+pub fn convert_send_message(id: StreamId, request: Req, end_of_stream: bool) -> (r: Result<HFrame, UserError>)
+{ unimplemented!() }
+
+/// crate::proto::streams SendError, reduced: which layer refused
+pub enum SendErr { User(UserError), Connection(Error) }
 /// frame::PushPromise (opaque here)
 pub struct PPFrame { pub tag: u8 }
 
@@ -206,6 +225,10 @@ impl StreamId {
 }
 
 impl Counts {
+    /// Counts::next_send_stream_will_reach_capacity (unit v_counts)
+    #[verifier::external_body]
+    pub fn next_send_stream_will_reach_capacity(&self) -> (r: bool) { unimplemented!() }
+
     /// Counts::transition_after, plain (no obligation on the stream): counts the transition
     #[verifier::external_body]
     pub fn transition_after_any(&mut self, stream: Stream, is_reset_counted: bool, store: &mut SStore)
@@ -258,6 +281,28 @@ impl Send {
     #[verifier::external_body]
     pub fn reserve_local(&mut self) -> (r: Result<StreamId, UserError>)
         ensures final(self).init_window_sz == old(self).init_window_sz && final(self).max_stream_id == old(self).max_stream_id,
+    { unimplemented!() }
+
+    /// Send::ensure_next_stream_id / Send::open (verified in unit v_send): the next client stream id, or refusal when ids are exhausted
+    #[verifier::external_body]
+    pub fn ensure_next_stream_id(&self) -> (r: Result<StreamId, UserError>) { unimplemented!() }
+
+    #[verifier::external_body]
+    pub fn open(&mut self) -> (r: Result<StreamId, UserError>)
+        ensures final(self).init_window_sz == old(self).init_window_sz && final(self).max_stream_id == old(self).max_stream_id,
+    { unimplemented!() }
+
+    /// Send::send_headers (Kani unit send_send_headers, complete over the state space): on Ok the stream has left idle and is
+    /// not closed (open or half-closed(local)); on Err nothing was queued
+    #[verifier::external_body]
+    pub fn send_headers(&mut self, frame: HFrame, buffer: &mut SendBuf, stream: &mut Stream, counts: &mut Counts, task: &mut Option<Waker>) -> (r: Result<(), UserError>)
+        requires old(stream).state.inner is Idle,
+        ensures
+            final(self).init_window_sz == old(self).init_window_sz,
+            final(stream).id == old(stream).id && final(stream).key == old(stream).key && final(stream).ref_count == old(stream).ref_count
+                && final(stream).content_length == old(stream).content_length,
+            r is Ok ==> !final(stream).state.closed(),
+            final(counts).transitions@ == old(counts).transitions@,
     { unimplemented!() }
 
     /// Send::send_push_promise: queues the PUSH_PROMISE on the parent stream (or refuses: push disabled, bad headers)
@@ -404,6 +449,13 @@ impl Recv {
 pub struct Actions { pub recv: Recv, pub send: Send, pub task: Option<Waker>, pub conn_error: Option<Error> }
 
 impl Actions {
+    /// Actions::ensure_no_conn_error: Err(clone of the recorded connection error) iff one is recorded
+    pub fn ensure_no_conn_error(&self) -> (r: Result<(), Error>)
+        ensures self.conn_error is Some ==> r == Err::<(), Error>(self.conn_error->Some_0), self.conn_error is None ==> r is Ok,
+    {
+        match self.conn_error { Some(e) => Err(e), None => Ok(()) }
+    }
+
     /// Actions::reset_on_recv_stream_err (see unit v_recv): a stream error becomes RST_STREAM, or over the quota a
     /// connection error; anything else passes through
     #[verifier::external_body]
@@ -650,6 +702,48 @@ impl StreamRefM {
     //@spec         r is Ok ==> final(me).refs == old(me).refs + 1,
     //@spec         r is Err ==> final(me).refs == old(me).refs,
     //@spec         final(me).actions.send.init_window_sz == old(me).actions.send.init_window_sz && final(me).actions.recv.init_window_sz == old(me).actions.recv.init_window_sz,
+    //@end
+}
+
+/// Streams<B, P>, reduced (the Arc<Mutex<Inner>> and the send buffer are passed in)
+pub struct StreamsM { pub tag: u8 }
+
+impl StreamsM {
+    // C02 / C03 / C04 / C05 / C13 / C19: a client starts a request.  Refused — nothing created, handle count unchanged — when
+    // the connection has failed, when stream ids are exhausted, when this handle's previous request is still waiting for a
+    // concurrency slot (C05: poll_ready must be used), when the endpoint is a server; otherwise the new record is created
+    // with the peer's initial SEND window and our initial RECEIVE window (precondition of insert_new), marked HEAD when the
+    // method is HEAD (C13: no body expected), and — if the HEADERS cannot be queued — removed again.  On success exactly
+    // one handle exists for the stream and the stream is not closed (the real debug_assert, an obligation).
+    // Listed substitutions: lock preambles / extension handling removed; `?` with its From conversion into SendError
+    // written out; the returned StreamRef reduced to the key.
+    //@extract src/proto/streams/streams.rs Streams::send_request
+    //@subst_re pub fn send_request\(\s*&mut self,\s*mut request: Request<\(\)>,\s*end_of_stream: bool,\s*pending: Option<&OpaqueStreamRef>,\s*\) -> Result<\(StreamRef<B>, bool\), SendError>=>pub fn send_request(&mut self, request: Req, end_of_stream: bool, pending: Option<&StreamRefM>, me: &mut SInner, send_buffer: &mut SendBuf) -> Result<(Key, bool), SendErr>
+    //@subst_re use super::stream::ContentLength;\s*use http::Method;\s*let protocol = request\.extensions_mut\(\)\.remove::<Protocol>\(\);\s*request\.extensions_mut\(\)\.clear\(\);\s*let mut me = self\.inner\.lock\(\)\.unwrap\(\);\s*let me = &mut \*me;\s*let mut send_buffer = self\.send_buffer\.inner\.lock\(\)\.unwrap\(\);\s*let send_buffer = &mut \*send_buffer;=>
+    //@subst me.actions.ensure_no_conn_error()?;=>if let Err(e) = me.actions.ensure_no_conn_error() { return Err(SendErr::Connection(e)); }
+    //@subst me.actions.send.ensure_next_stream_id()?;=>if let Err(e) = me.actions.send.ensure_next_stream_id() { return Err(SendErr::User(e)); }
+    //@subst if me.store.resolve(stream.key).is_pending_open {=>if me.store.is_pending_open_at(stream.key) {
+    //@subst return Err(UserError::Rejected.into());=>return Err(SendErr::User(UserError::Rejected));
+    //@subst return Err(UserError::UnexpectedFrameType.into());=>return Err(SendErr::User(UserError::UnexpectedFrameType));
+    //@subst let stream_id = me.actions.send.open()?;=>let stream_id = match me.actions.send.open() { Ok(i) => i, Err(e) => { return Err(SendErr::User(e)); } };
+    //@subst if *request.method() == Method::HEAD {=>if request.is_head() {
+    //@subst_re client::Peer::convert_send_message\(stream_id, request, protocol, end_of_stream\)\?;=>match convert_send_message(stream_id, request, end_of_stream) { Ok(h) => h, Err(e) => { return Err(SendErr::User(e)); } };
+    //@subst let mut stream = me.store.insert(stream.id, stream);=>let mut stream = me.store.insert_new(stream.id, stream, Ghost(me.actions.send.init_window_sz as int), Ghost(me.actions.recv.init_window_sz as int));
+    //@subst stream.remove();=>me.store.remove(stream);
+    //@subst return Err(err.into());=>return Err(SendErr::User(err));
+    //@subst_re Ok\(\(\s*StreamRef \{\s*opaque: OpaqueStreamRef::new\(self\.inner\.clone\(\), &mut stream\),\s*send_buffer: self\.send_buffer\.clone\(\),\s*\},\s*is_full,\s*\)\)=>let _k = opaque_stream_ref_new(&mut stream); proof { assert(stream.ref_count == 1); } me.store.put_back_any(stream); Ok((_k, is_full))
+    //@ret r
+    //@spec     requires old(me).refs < usize::MAX,
+    //@spec     ensures
+    //@spec         final(me).store.held() == old(me).store.held(),
+    //@spec         r is Ok ==> final(me).refs == old(me).refs + 1,
+    //@spec         r is Err ==> final(me).refs == old(me).refs,
+    //@spec         // C07: a failed connection refuses new requests with the recorded error
+    //@spec         old(me).actions.conn_error is Some ==> (r matches Err(SendErr::Connection(e)) && e == old(me).actions.conn_error->Some_0),
+    //@spec         // C05: one request waiting for a slot per handle
+    //@spec         (old(me).actions.conn_error is None && (pending matches Some(p) && old(me).store.spec_get(p.key).is_pending_open)) ==> r is Err,
+    //@spec         // C04: a server cannot start a stream with HEADERS
+    //@spec         old(me).counts.peer == PeerDyn::Server ==> r is Err,
     //@end
 }
 
